@@ -176,4 +176,107 @@ def validNow (prev : Nat → Valid) (t : VTree) (id : Nat) : Valid :=
 def allValidNow (prev : Nat → Valid) (t : VTree) : Bool :=
   t.ids.all (fun id => (validNow prev t id).truthy)
 
+/-! ### `validate(recurse=False)`: the one element, descent then ascent, children untouched -/
+
+/-- what `validate(recurse=False)` leaves and returns: `return self.valid` — the flag itself (which can be
+    `Unevaluated` when neither phase evaluates), and the validators invoked -/
+structure NoRec where
+  valid : Valid
+  log : List Call
+  deriving Repr
+
+/-- `if not recurse:` branch of `Element.validate`:
+    `down = self._validate(state, True)`; `self.valid = down if down is Unevaluated else bool(down)`;
+    `up = self._validate(state, False)`; `if up is not Unevaluated: self.valid = bool(up)`; `return self.valid`.
+    As written the ascent result REPLACES the descent result (no `elif element.valid:` guard as in the loop). -/
+def validateNoRecurse (i : Info) : NoRec :=
+  let d := validateDown i
+  let v₁ := validAfterDown d.1
+  let u := validateUp i
+  let v₂ := match u.1 with
+    | .uneval => v₁
+    | r => .ofBool r.truthy
+  { valid := v₂, log := callsOf i.id true d.2 ++ callsOf i.id false u.2 }
+
+/-- the `.valid` store after `validate(recurse=False)` on the element `i`: only that element is written -/
+def validNowNoRec (prev : Nat → Valid) (i : Info) (id : Nat) : Valid :=
+  if id = i.id then (validateNoRecurse i).valid else prev id
+
+/-! ### `all_valid`: getter and setter over the store -/
+
+/-- `_get_all_valid`: `self.valid` and `.valid` of every element of `all_children` are truthy -/
+def allValid (st : Nat → Valid) (t : VTree) : Bool :=
+  t.ids.all (fun id => (st id).truthy)
+
+/-- `_set_all_valid`: `self.valid = value`, then the same for every element of `all_children` -/
+def setAllValid (prev : Nat → Valid) (sub : VTree) (v : Valid) (id : Nat) : Valid :=
+  if id ∈ sub.ids then v else prev id
+
+mutual
+/-- the sub-tree rooted at the element `id` (first in preorder) -/
+def VTree.find (id : Nat) : VTree → Option VTree
+  | .node i k => if i.id = id then some (.node i k) else findL id k
+def findL (id : Nat) : List VTree → Option VTree
+  | [] => none
+  | t :: ts => match t.find id with
+    | some r => some r
+    | none => findL id ts
+end
+
+/-! ### the `validator_validated` signal (sent only while a receiver is connected)
+
+`validate_element` sends one signal right after each validator it invoked, carrying the validator's RAW
+result, and one with sender `NotEmpty` for the fallback check of an empty validator list.  The model keeps a
+trace that interleaves validator invocations and emissions in the order they happen. -/
+
+inductive Sender
+  | validator (descending : Bool) (idx : Nat)
+  | notEmpty
+  deriving DecidableEq, Repr, Inhabited
+
+structure Signal where
+  id : Nat
+  sender : Sender
+  result : Outcome      -- raw result of the validator; `tru` / `fls` for the fallback check
+  deriving DecidableEq, Repr, Inhabited
+
+inductive Event
+  | call (c : Call)
+  | signal (s : Signal)
+  deriving DecidableEq, Repr, Inhabited
+
+def Event.call? : Event → Option Call | .call c => some c | .signal _ => none
+def Event.signal? : Event → Option Signal | .signal s => some s | .call _ => none
+
+/-- does the `for fn in validators` loop go on after this result? (`None`, `Skip`, falsy and `SkipAll` return) -/
+def Outcome.goesOn : Outcome → Bool | .tru => true | _ => false
+
+/-- the loop of `validate_element` with a receiver connected: `valid = fn(element, state)`, then
+    `validator_validated.send(fn, element=…, state=…, result=valid)`, then the tests on `valid` -/
+def traceRun (id : Nat) (descending : Bool) : Nat → List Outcome → List Event
+  | _, [] => []
+  | k, o :: rest =>
+    .call (id, descending, k) :: .signal ⟨id, .validator descending k, o⟩ ::
+      (if o.goesOn then traceRun id descending (k + 1) rest else [])
+
+/-- `validate_element` with a receiver connected -/
+def traceElement (i : Info) (descending : Bool) (vs : List Outcome) : List Event :=
+  if i.empty && i.optional then []
+  else if vs.isEmpty then [.signal ⟨i.id, .notEmpty, if i.empty then .fls else .tru⟩]
+  else traceRun i.id descending 0 vs
+
+def traceDown (i : Info) : List Event :=
+  if i.container then (if i.down.isEmpty then [] else traceElement i true i.down)
+  else traceElement i true i.down
+
+def traceUp (i : Info) : List Event :=
+  if i.container then traceElement i false i.up else []
+
+/-- everything `validate()` makes happen, in order, while a receiver is connected -/
+def validateTrace (t : VTree) : List Event :=
+  let elements := descend [t]
+  elements.flatMap (fun v => traceDown v.info) ++ elements.reverse.flatMap (fun v => traceUp v.info)
+
+def noRecurseTrace (i : Info) : List Event := traceDown i ++ traceUp i
+
 end Flatland.C05
